@@ -19,7 +19,7 @@ func (c15) Size(tier string) Size {
 	return Size{Batches: 4, Cases: 8000}
 }
 func (c15) Rule() string {
-	return "case = schema of 0-5 soft types x 0-4 relationships built coherent and then perturbed with 0..n planted faults (missing target, missing / misnamed / mis-typed inverse, wrong FromType on one-way and two-way relationships, self-referential relationships, nil maps); oracle = my own predicate offending(rel): len(Check())==0 iff no offending relationship, len(Check()) >= number of offending relationships, no panic, deep schema fingerprint unchanged. Non-trivial = >= 2 relationships with at least one naming an inverse."
+	return "case = schema of 0-5 soft types x 0-4 relationships built coherent and then perturbed with 0..n planted faults (missing target, missing / misnamed / mis-typed inverse, wrong FromType on one-way and two-way relationships, self-referential relationships, nil maps); oracle = my own predicate offending(rel): len(Check())==0 iff no offending relationship, len(Check()) >= number of offending relationships, no panic, deep schema fingerprint unchanged. Names include '_' (a_b / b_c style collisions); in 2 of 5 types the Rels map keys are not the relationships' FromName (prefixed, or rotated among siblings): a relationship is what it says, not the key it is stored under. Non-trivial = >= 2 relationships with at least one naming an inverse."
 }
 func (c15) Assumptions() []string {
 	return []string{"reading: 'reciprocated by a relationship of the target type that names it back' includes the back-reference's target type (the quantifier lists mis-typed inverses separately from misnamed ones)",
@@ -84,8 +84,19 @@ func (m c15) run(c *Ctx, order []string, types map[string][]jsonapi.Rel, nilMaps
 		if !nilMaps[tn] {
 			typ.Attrs = map[string]jsonapi.Attr{}
 		}
-		for _, r := range types[tn] {
-			typ.Rels[r.FromName] = r
+		for i, r := range types[tn] {
+			key := r.FromName
+			// a relationship is identified by what it says (FromName), not by the map key it is stored under:
+			// in some schemas the keys are something else (a prefixed name, the name of a sibling)
+			switch rekey := strSeed(tn+fmt.Sprint(len(order), len(types[tn]))) % 5; {
+			case rekey == 1:
+				key = "k:" + r.FromName
+				c.Count("rels_stored_under_another_key")
+			case rekey == 2 && len(types[tn]) >= 2:
+				key = types[tn][(i+1)%len(types[tn])].FromName // rotated among the siblings
+				c.Count("rels_stored_under_another_key")
+			}
+			typ.Rels[key] = r
 			nrels++
 			if r.ToName != "" {
 				twoWay++
@@ -137,8 +148,8 @@ func (m c15) run(c *Ctx, order []string, types map[string][]jsonapi.Rel, nilMaps
 	}
 }
 
-var c15Types = []string{"a", "b", "ab", "t1", "users", "c"}
-var c15Names = []string{"a", "b", "ab", "r1", "r2", "author", "authors", "c"}
+var c15Types = []string{"a", "b", "ab", "t1", "users", "c", "a_b", "b_c"}
+var c15Names = []string{"a", "b", "ab", "r1", "r2", "author", "authors", "c", "a_b", "b_c", "_"}
 
 func (m c15) Case(c *Ctx, r *RNG) {
 	nt := r.Range(0, 5)
@@ -295,4 +306,55 @@ func (m c15) Directed(c *Ctx) {
 	}, nil, "")
 	c.Name = "empty-schema"
 	m.run(c, nil, map[string][]jsonapi.Rel{}, nil, "")
+	// exhaustive over a tiny universe whose names collide under any separator-joined key: types {a, a_b},
+	// relationship names {b, c, b_c, a_b}, inverse name empty or one of those, target either type; every schema with
+	// at most one relationship per type (quick) / at most two (thorough)
+	c.Name = "exhaustive-underscore-universe"
+	tnames := []string{"a", "a_b"}
+	rnames := []string{"b", "c", "b_c", "a_b"}
+	options := func(owner string) [][]jsonapi.Rel {
+		var single []jsonapi.Rel
+		for _, fn := range rnames {
+			for _, tt := range tnames {
+				for _, tn := range append([]string{""}, rnames...) {
+					single = append(single, jsonapi.Rel{FromType: owner, FromName: fn, ToType: tt, ToName: tn})
+				}
+			}
+		}
+		out := [][]jsonapi.Rel{nil}
+		for _, r := range single {
+			out = append(out, []jsonapi.Rel{r})
+		}
+		if c.Thorough() {
+			for i, r1 := range single {
+				for _, r2 := range single[i+1:] {
+					if r1.FromName != r2.FromName {
+						out = append(out, []jsonapi.Rel{r1, r2})
+					}
+				}
+			}
+		}
+		return out
+	}
+	oa, ob := options("a"), options("a_b")
+	if c.Thorough() {
+		ob = ob[:41] // two relationships in one type x at most one in the other, both ways
+	}
+	n := 0
+	for _, ra := range oa {
+		for _, rb := range ob {
+			m.run(c, tnames, map[string][]jsonapi.Rel{"a": ra, "a_b": rb}, nil, "")
+			n++
+		}
+	}
+	if c.Thorough() {
+		oa2 := options("a")[:41]
+		for _, ra := range oa2 {
+			for _, rb := range options("a_b")[41:] {
+				m.run(c, tnames, map[string][]jsonapi.Rel{"a": ra, "a_b": rb}, nil, "")
+				n++
+			}
+		}
+	}
+	c.Extra["exhaustive_subspaces"] = []string{fmt.Sprintf("every schema over types {a, a_b} with relationship names in {b, c, b_c, a_b}, inverse name empty or one of them, any target: %d schemas", n)}
 }
